@@ -116,7 +116,9 @@ def random_case(ctx, idx, rng):
     sig = (shape_kind, lay, kind, _sortclass(np.asarray(q0), np.asarray(q1)), 'disjoint' if shared == 0 else 'shared', f'scale{scale:g}', mem, 'q-lists' if isinstance(q0, list) else 'q-arrays')
     _call(ctx, A, q0, q1, sig, nontrivial=(kind != 'zero' and shared > 0))
     if A.flags.writeable and idx % 3 == 0:
-        # history: the SAME array object changed in place and factorised again
+        # history: the SAME array object changed in place and factorised again (a held result may legitimately alias the input matrix --
+        # C11 does not forbid that -- so the held-result re-verification is dropped before the harness itself edits the input)
+        _PREV.clear()
         A *= -2
         if A.size:
             A[0, 0] = A[0, 0] + (1 if q0[0] == q1[0] else 0)
